@@ -1,5 +1,7 @@
 // Suite wal (C13): the real tsdb/wlog writer, Reader and LiveReader on generated logs.
 // See lean/PromModel/Suites/WalSuite.lean for the op/output grammar.
+// Huge records (1 MiB .. 128 MiB+1) travel as runs `r<n>x<byte>` in the judge-only ops `big*`.
+// VERIF_WAL_TIMING=1 prints the duration of every op to stderr.
 package main
 
 import (
@@ -10,6 +12,7 @@ import (
 	"io"
 	"os"
 	"path/filepath"
+	"runtime"
 	"sort"
 	"strconv"
 	"strings"
@@ -41,6 +44,51 @@ func fnv64(b []byte) string {
 }
 
 func recID(b []byte) string { return fmt.Sprintf("%d:%s", len(b), fnv64(b)) }
+
+// Huge records (ops `big*`): records of bigThreshold bytes or more are fingerprinted by length, byte sum,
+// smallest and largest byte — which the Lean judge computes in closed form for a run of one byte
+// (Prom.Wal.Suite.fp / runFp; must stay in sync).
+const bigThreshold = 1 << 19
+
+func fp(b []byte) string {
+	if len(b) < bigThreshold {
+		return recID(b)
+	}
+	var sum uint64
+	lo, hi := byte(255), byte(0)
+	for _, x := range b {
+		sum += uint64(x)
+		lo = min(lo, x)
+		hi = max(hi, x)
+	}
+	return fmt.Sprintf("%d:s%d:%d:%d", len(b), sum, lo, hi)
+}
+
+// bigBuf is the one buffer all run records are written from (allocated once, refilled per record).
+var bigBuf []byte
+
+const bigBufMin = 128<<20 + 1
+
+func runRec(n int, fill byte, fresh bool) []byte {
+	var r []byte
+	if fresh {
+		r = make([]byte, n)
+	} else {
+		if cap(bigBuf) < n {
+			bigBuf = nil
+			bigBuf = make([]byte, max(n, bigBufMin))
+		}
+		r = bigBuf[:n]
+	}
+	if n == 0 {
+		return r
+	}
+	r[0] = fill
+	for i := 1; i < n; i *= 2 {
+		copy(r[i:], r[:i])
+	}
+	return r
+}
 
 func showRecs(rs []string) string {
 	if len(rs) == 0 {
@@ -93,6 +141,14 @@ type state struct {
 	liveLR   *wlog.LiveReader
 	scratchN int
 	hung     bool
+	big      bool // ops `big*`: records are fingerprinted with fp, no byte-level outputs
+}
+
+func (s *state) id(b []byte) string {
+	if s.big {
+		return fp(b)
+	}
+	return recID(b)
 }
 
 var lrMetrics = wlog.NewLiveReaderMetrics(nil)
@@ -113,6 +169,9 @@ func (s *state) ensureOpen() {
 }
 
 func (s *state) cleanup() {
+	if s.root == "" {
+		return
+	}
 	if !s.hung { // a stuck op may hold the log's mutex; then only unlink the files
 		if s.liveF != nil {
 			s.liveF.Close()
@@ -157,7 +216,7 @@ func (s *state) scratch(upto int) string {
 	return d
 }
 
-func readDir(dir string) string {
+func readDir(dir string, id func([]byte) string) string {
 	sr, err := wlog.NewSegmentsReader(dir)
 	if err != nil {
 		panic(err)
@@ -166,7 +225,7 @@ func readDir(dir string) string {
 	r := wlog.NewReader(sr)
 	var rs []string
 	for r.Next() {
-		rs = append(rs, recID(r.Record()))
+		rs = append(rs, id(r.Record()))
 	}
 	st := "eof"
 	if err := r.Err(); err != nil {
@@ -207,7 +266,7 @@ func (g *growing) Read(p []byte) (int, error) {
 }
 
 // liveObserve runs a fresh LiveReader over data, letting it see data[:c] for each cut c in turn.
-func liveObserve(data []byte, cuts []int) (per [][]string, status []string) {
+func liveObserve(data []byte, cuts []int, id func([]byte) string) (per [][]string, status []string) {
 	g := &growing{data: data}
 	lr := wlog.NewLiveReader(promslog.NewNopLogger(), lrMetrics, g)
 	prev := 0
@@ -222,7 +281,7 @@ func liveObserve(data []byte, cuts []int) (per [][]string, status []string) {
 		g.limit = c
 		var rs []string
 		for lr.Next() {
-			rs = append(rs, recID(lr.Record()))
+			rs = append(rs, id(lr.Record()))
 		}
 		st := lrStatus(lr.Err())
 		per = append(per, rs)
@@ -263,6 +322,16 @@ func parseInts(s string) []int {
 
 func (s *state) exec(c *h.Ctx, op string) string {
 	f := strings.Fields(op)
+	if strings.HasPrefix(f[0], "big") {
+		// huge-record ops: same operations, records fingerprinted with fp, record level only
+		switch f[0] {
+		case "bigopen", "biglog", "bigclose", "bigread", "bigliveread", "bigliveall":
+			s.big = true
+			f[0] = f[0][3:]
+		default:
+			return "bad-op"
+		}
+	}
 	none := s.mode == compression.None || s.mode == ""
 	switch f[0] {
 	case "open":
@@ -281,7 +350,17 @@ func (s *state) exec(c *h.Ctx, op string) string {
 		none = s.mode == compression.None
 		var recs [][]byte
 		if f[1] != "-" {
+			runs := 0
 			for _, p := range strings.Split(f[1], ",") {
+				if s.big && strings.HasPrefix(p, "r") { // r<n>x<byte>: n copies of one byte
+					ls := strings.SplitN(p[1:], "x", 2)
+					if len(ls) != 2 || atoi(ls[1]) > 255 {
+						panic("bad run " + p)
+					}
+					recs = append(recs, runRec(atoi(ls[0]), byte(atoi(ls[1])), runs > 0))
+					runs++
+					continue
+				}
 				ls := strings.SplitN(p, ":", 2)
 				recs = append(recs, genRec(atoi(ls[0]), atoi(ls[1])))
 			}
@@ -289,7 +368,7 @@ func (s *state) exec(c *h.Ctx, op string) string {
 		if err := s.w.Log(recs...); err != nil {
 			return "error:" + classify(err.Error())
 		}
-		if !none {
+		if !none || s.big {
 			return "ok"
 		}
 		n := s.nsegs()
@@ -304,7 +383,7 @@ func (s *state) exec(c *h.Ctx, op string) string {
 			}
 			s.closed = true
 		}
-		if !none {
+		if !none || s.big {
 			return "ok"
 		}
 		var parts []string
@@ -329,7 +408,7 @@ func (s *state) exec(c *h.Ctx, op string) string {
 		return h.Hex(b[off : off+n])
 	case "read":
 		s.ensureOpen()
-		return readDir(s.dir)
+		return readDir(s.dir, s.id)
 	case "readtrunc":
 		s.ensureOpen()
 		k, n := atoi(f[1]), atoi(f[2])
@@ -344,7 +423,7 @@ func (s *state) exec(c *h.Ctx, op string) string {
 				panic(err)
 			}
 		}
-		return readDir(d)
+		return readDir(d, recID)
 	case "readmut":
 		s.ensureOpen()
 		k, off, v := atoi(f[1]), atoi(f[2]), atoi(f[3])
@@ -359,7 +438,7 @@ func (s *state) exec(c *h.Ctx, op string) string {
 				panic(err)
 			}
 		}
-		return readDir(d)
+		return readDir(d, recID)
 	case "rawtrunc":
 		s.ensureOpen()
 		n := atoi(f[1])
@@ -401,7 +480,7 @@ func (s *state) exec(c *h.Ctx, op string) string {
 				s.liveLR = wlog.NewLiveReader(promslog.NewNopLogger(), lrMetrics, s.liveF)
 			}
 			for s.liveLR.Next() {
-				rs = append(rs, recID(s.liveLR.Record()))
+				rs = append(rs, s.id(s.liveLR.Record()))
 			}
 			st := lrStatus(s.liveLR.Err())
 			if st != "eof" {
@@ -427,7 +506,7 @@ func (s *state) exec(c *h.Ctx, op string) string {
 				cuts = append(cuts, len(b)*p/1000)
 			}
 			cuts = append(cuts, len(b))
-			per, status := liveObserve(b, cuts)
+			per, status := liveObserve(b, cuts, s.id)
 			for _, rs := range per {
 				all = append(all, rs...)
 			}
@@ -442,7 +521,7 @@ func (s *state) exec(c *h.Ctx, op string) string {
 		if k >= s.nsegs() {
 			return "no-segment"
 		}
-		per, status := liveObserve(s.segBytes(k), parseInts(f[2]))
+		per, status := liveObserve(s.segBytes(k), parseInts(f[2]), recID)
 		return showObs(per, status)
 	case "livemut":
 		s.ensureOpen()
@@ -454,7 +533,7 @@ func (s *state) exec(c *h.Ctx, op string) string {
 		if off < len(b) {
 			b[off] ^= byte(v)
 		}
-		per, status := liveObserve(b, []int{len(b)})
+		per, status := liveObserve(b, []int{len(b)}, recID)
 		return showObs(per, status)
 	}
 	return "bad-op"
@@ -483,13 +562,33 @@ func runCase(c *h.Ctx, ops []string) {
 	defer s.cleanup()
 	hung := false
 	for _, op := range ops {
+		// judge-only ops (`big*`): the observation travels in the op line (`<op> | <observation>`), the
+		// implementation column is `-`; a replayed line has its old observation stripped and re-made.
+		big := strings.HasPrefix(op, "big")
+		if big {
+			if i := strings.Index(op, " | "); i >= 0 {
+				op = op[:i]
+			}
+		}
+		emit := func(out string) {
+			if big {
+				c.Op(op+" | "+out, "-")
+			} else {
+				c.Op(op, out)
+			}
+		}
+		deadline := opDeadline
+		if big {
+			deadline = bigOpDeadline
+		}
 		if hung {
-			c.Op(op, "abandoned")
+			emit("abandoned")
 			continue
 		}
 		// A reader that stops making progress must not stall the run: every op gets a deadline, and a case
 		// whose op hangs is abandoned (the stuck goroutine is left behind; the process exits at the end).
 		res := make(chan string, 1)
+		t0 := time.Now()
 		go func() {
 			var out string
 			if p, v := h.Try(func() { out = s.exec(c, op) }); p {
@@ -500,7 +599,7 @@ func runCase(c *h.Ctx, ops []string) {
 		var out string
 		select {
 		case out = <-res:
-		case <-time.After(opDeadline):
+		case <-time.After(deadline):
 			out = "hang"
 			hung = true
 			c.Count("out:hang")
@@ -508,15 +607,33 @@ func runCase(c *h.Ctx, ops []string) {
 		if strings.HasPrefix(out, "panic:") {
 			c.Count("out:panic")
 		}
-		c.Op(op, out)
+		emit(out)
+		if big && !hung {
+			// collect the readers' record buffers now so that the next op reuses their pages: touching
+			// fresh memory is by far the most expensive part of these cases
+			runtime.GC()
+		}
+		if os.Getenv("VERIF_WAL_TIMING") != "" {
+			fmt.Fprintf(os.Stderr, "%8.3fs %.60s\n", time.Since(t0).Seconds(), op)
+		}
 	}
 	s.hung = hung
 	if hung {
 		hungCases++
 	}
+	if s.big && !hung {
+		// drop the live reader's record buffer before the next case
+		s.cleanup()
+		s.root = ""
+		s.liveLR = nil
+		runtime.GC()
+	}
 }
 
 const opDeadline = 8 * time.Second
+
+// a 128 MiB record is written/read in well under a second; the margin is for a loaded machine
+const bigOpDeadline = 120 * time.Second
 
 var hungCases int
 
@@ -737,6 +854,153 @@ func genCase(c *h.Ctx, id string, mode string) {
 	runCase(c, ops)
 }
 
+// ---- huge records (judge-only cases) ----
+
+// ordSpecs draws k ordinary records `len:seed` (empty, tiny, around a page, a few pages).
+func ordSpecs(r *h.Rng, k int) []string {
+	var parts []string
+	for j := 0; j < k; j++ {
+		var n int
+		switch r.Intn(6) {
+		case 0:
+			n = 0
+		case 1:
+			n = 1 + r.Intn(40)
+		case 2:
+			n = pageSize - 7 + r.Intn(3) - 1
+		case 3:
+			n = r.Intn(3 * pageSize)
+		default:
+			n = r.Intn(3000)
+		}
+		parts = append(parts, fmt.Sprintf("%d:%d", n, r.Intn(256)))
+	}
+	return parts
+}
+
+// How much reading a huge-record case does.  Every reader holds a decoded copy of the run, and touching
+// fresh memory is what these cases cost, so the biggest ones read less.
+const (
+	bigFull   = iota // tailed while written, Reader, fresh LiveReaders over growing prefixes
+	bigNoTail        // Reader, then fresh LiveReaders: one decoded copy at a time
+	bigLite          // one LiveReader over the closed files, then Reader (uncompressed logs of 32 MiB and more)
+)
+
+// genBig: ordinary records, one run record of n bytes (optionally a second, different one), ordinary
+// records; the log is tailed while written, closed, read with Reader and LiveReader.
+func genBig(c *h.Ctx, id, mode string, pps, n, n2 int, level int) {
+	r := c.Rng
+	fill := 1 + r.Intn(255)
+	var ops []string
+	logOp := func(parts []string) {
+		if len(parts) == 0 {
+			ops = append(ops, "biglog -")
+		} else {
+			ops = append(ops, "biglog "+strings.Join(parts, ","))
+		}
+	}
+	live := func(p int) {
+		if r.Chance(p) && level == bigFull {
+			ops = append(ops, "bigliveread")
+		}
+	}
+	ops = append(ops, fmt.Sprintf("bigopen %d %s", pps, mode))
+	logOp(ordSpecs(r, 1+r.Intn(3)))
+	live(50)
+	// the run record alone in its batch, or with ordinary records around it in the same batch
+	run := []string{fmt.Sprintf("r%dx%d", n, fill)}
+	if r.Chance(40) {
+		run = append(ordSpecs(r, 1), run...)
+	}
+	if r.Chance(40) {
+		run = append(run, ordSpecs(r, 1)...)
+	}
+	logOp(run)
+	live(100)
+	logOp(ordSpecs(r, 1+r.Intn(3)))
+	if n2 > 0 {
+		// a second run with another fill: the readers reuse their (larger or smaller) record buffers
+		logOp([]string{fmt.Sprintf("r%dx%d", n2, (fill+1+r.Intn(254))%256)})
+		live(50)
+		logOp(ordSpecs(r, 1))
+	}
+	ops = append(ops, "bigclose")
+	live(100)
+	perm := fmt.Sprintf("bigliveall %d,%d", r.Intn(500), 500+r.Intn(501))
+	if level == bigLite {
+		ops = append(ops, "bigliveread", "bigread")
+	} else {
+		ops = append(ops, "bigread", perm)
+	}
+	c.Count("big:mode:" + mode)
+	c.Count(fmt.Sprintf("big:pps:%d", pps))
+	c.Count(fmt.Sprintf("big:size:2^%d", bitLen(n+1)-1))
+	if n2 > 0 {
+		c.Count("big:two-runs")
+	}
+	c.Count(fmt.Sprintf("big:level:%d", level))
+	c.Case(id)
+	c.NonTrivial(strings.Join(ops, ";"))
+	runCase(c, ops)
+}
+
+func bitLen(n int) int {
+	k := 0
+	for ; n > 0; n >>= 1 {
+		k++
+	}
+	return k
+}
+
+// genBigCases: quick = four cases (a 1 MiB+1 record uncompressed, 2 MiB-1 snappy, and 64 MiB+1 and
+// 128 MiB+1 with zstd, whose on-disk size is a few KiB; the last one is not tailed, so that the whole
+// tier touches about 128 MiB for the record written plus 128 MiB for decoded copies).
+// thorough = the sizes 2^k-1, 2^k, 2^k+1 for k = 20..27 with zstd, snappy and none and one of three
+// segment sizes (64 KiB, 256 KiB, the default 128 MiB) in rotation, zstd at 2^k+1 with all three;
+// uncompressed from 32 MiB on only 2^k+1 and less reading (each such case moves about 1 GiB);
+// plus cases with two runs.
+func genBigCases(c *h.Ctx) {
+	if c.Tier != "thorough" {
+		genBig(c, "big0", "none", 2, 1<<20+1, 0, bigFull)
+		genBig(c, "big1", "snappy", 8, 2<<20-1, 0, bigFull)
+		genBig(c, "big2", "zstd", 2, 64<<20+1, 0, bigFull)
+		genBig(c, "big3", "zstd", 4096, 128<<20+1, 0, bigNoTail)
+		return
+	}
+	i := 0
+	next := func() string { i++; return fmt.Sprintf("big%d", i-1) }
+	ppsPool := []int{2, 8, 4096}
+	rot := 0
+	for k := 20; k <= 27; k++ {
+		for d := -1; d <= 1; d++ {
+			n := 1<<k + d
+			rot++
+			if d == 1 {
+				for _, pps := range ppsPool {
+					genBig(c, next(), "zstd", pps, n, 0, bigFull)
+				}
+			} else {
+				genBig(c, next(), "zstd", ppsPool[(rot+2)%3], n, 0, bigFull)
+			}
+			genBig(c, next(), "snappy", ppsPool[rot%3], n, 0, bigFull)
+			switch {
+			case k < 25:
+				genBig(c, next(), "none", ppsPool[(rot+1)%3], n, 0, bigFull)
+			case d == 1:
+				genBig(c, next(), "none", ppsPool[(rot+1)%3], n, 0, bigLite)
+			}
+		}
+	}
+	for _, mode := range []string{"snappy", "zstd"} {
+		genBig(c, next(), mode, 2, 64<<20+1, 16<<20+1, bigFull)
+		genBig(c, next(), mode, 4, 4<<20, 32<<20+1, bigFull)
+		genBig(c, next(), mode, 4096, 32<<20-1, 32<<20-1, bigNoTail)
+	}
+	genBig(c, next(), "none", 2, 8<<20+1, 2<<20+1, bigFull)
+	genBig(c, next(), "none", 4096, 1<<20, 4<<20+1, bigFull)
+	genBig(c, next(), "none", 8, 2<<20-1, 2<<20-1, bigNoTail)
+}
+
 func sizeClass(n, pps int) string {
 	switch {
 	case n == 0:
@@ -771,5 +1035,9 @@ func main() {
 			mode = "zstd"
 		}
 		genCase(c, fmt.Sprintf("w%d", i), mode)
+	}
+	// after the ordinary cases, so that those are the same as before for a given seed
+	if c.N > 0 && hungCases < 4 {
+		genBigCases(c)
 	}
 }
